@@ -43,3 +43,13 @@ Example C14_runs :
   = ([0;4;8;12;16;20;1;5;9;13;17;21;2;6;10;14;18;22;3;7;11;15;19;23],
      [0;4;8;12;16;20;1;5;9;13;17;21;2;6;10;14;18;22;3;7;11;15;19;23]).
 Proof. vm_compute. reflexivity. Qed.
+
+(** * _transpose as translated from backend/transpose/transpose.h on this run (blocked AVX routine with
+    the default block sizes, and the plain loops): the index of every access of a, out and the two packs *)
+From FastorV Require Import Gen.GeneratedAccess Proofs.GenAccessEq.
+Theorem C14_source_transpose_accesses :
+  forall W M N i ii j jj v,
+    gen_transpose_avx_accesses W M N i ii j jj v = model_transpose_avx W M N i ii j jj v /\
+    gen_transpose_plain_accesses M N i j = [(1, j * M + i); (0, i * N + j)].
+Proof. exact gen_transpose_accesses_eq. Qed.
+Print Assumptions C14_source_transpose_accesses.
